@@ -83,7 +83,7 @@ def valueless_token_frames(chk):
         if isinstance(e, ast.Constant) and e.value == "":
             return True
         return False
-    breaches = []
+    breaches, unknown = [], []
     for x in ast.walk(node):
         tg = x.targets if isinstance(x, ast.Assign) else [x.target] if isinstance(x, (ast.AugAssign, ast.NamedExpr, ast.AnnAssign)) else []
         for t in tg:
@@ -94,13 +94,23 @@ def valueless_token_frames(chk):
                     breaches.append(f"the identifier text is changed: {ast.unparse(x)}")
     # variables that hold keywords[T] / keywords.get(T)
     def table_entry(e):
-        if isinstance(e, ast.Subscript) and ast.unparse(e.value) == "keywords":
+        """TABLE[T] / TABLE.get(T) for a module-level table (whatever it is called)"""
+        if isinstance(e, ast.Subscript) and isinstance(e.value, ast.Name):
             return isinstance(e.slice, ast.Name) and e.slice.id == T
-        if isinstance(e, ast.Call) and ast.unparse(e.func) == "keywords.get":
+        if isinstance(e, ast.Call) and isinstance(e.func, ast.Attribute) and e.func.attr == "get" and isinstance(e.func.value, ast.Name):
             return bool(e.args) and isinstance(e.args[0], ast.Name) and e.args[0].id == T and len(e.args) == 1
         return False
-    kvars = set()
+
+    def helper_of_text(e):
+        """f(T): the kind comes out of a helper function -- what it does is not known to this scan"""
+        return isinstance(e, ast.Call) and isinstance(e.func, ast.Name) and len(e.args) == 1 and \
+            isinstance(e.args[0], ast.Name) and e.args[0].id == T
+    kvars, hvars = set(), set()
     for x in ast.walk(node):
+        if isinstance(x, (ast.Assign, ast.NamedExpr)) and helper_of_text(x.value):
+            for t in (x.targets if isinstance(x, ast.Assign) else [x.target]):
+                if isinstance(t, ast.Name):
+                    hvars.add(t.id)
         if isinstance(x, (ast.Assign, ast.NamedExpr)) and table_entry(x.value):
             for t in (x.targets if isinstance(x, ast.Assign) else [x.target]):
                 if isinstance(t, ast.Name):
@@ -109,6 +119,9 @@ def valueless_token_frames(chk):
         if x in ident:
             continue
         a0 = x.args[0] if x.args else None
+        if a0 is not None and (helper_of_text(a0) or (isinstance(a0, ast.Name) and a0.id in hvars)):
+            unknown.append(ast.unparse(x))
+            continue
         if not (a0 is not None and (table_entry(a0) or (isinstance(a0, ast.Name) and a0.id in kvars))):
             breaches.append(f"a token whose type is not the keywords entry of the consumed text: {ast.unparse(x)}")
     for x in ast.walk(node):
@@ -120,6 +133,12 @@ def valueless_token_frames(chk):
             for t in (x.targets if isinstance(x, ast.Assign) else [x.target]):
                 if isinstance(t, ast.Name) and t.id in kvars and not (isinstance(x, ast.Assign) and table_entry(x.value)):
                     breaches.append(f"the looked-up kind is changed: {ast.unparse(x)}")
+    if unknown and not breaches:
+        chk.items.append(Item(f"C10.{name}", "frame-scan", "undecided", "frame-scan", 0.0,
+                              {"reason": "the kind of a valueless token comes out of a helper function", "tokens": unknown}))
+        chk.undecided.append(f"C10.{name}: the kind of a valueless token comes out of a helper function ({unknown}); the "
+                             "bounded round trip (with look-alike spellings of keywords) decides")
+        return
     chk.frame(name, not breaches, {"text_variable": T, "tokens": [ast.unparse(x) for x in tokens], "breaches": breaches},
               what="parse_identifier: " + "; ".join(breaches) + " -- the text of a keyword token may differ from what was consumed")
 
